@@ -129,7 +129,7 @@ func exec1(c *catalog, s stmt) string {
 			if !contains(names, f.Col) {
 				return "foreign key column " + f.Col + " does not exist in " + s.T
 			}
-			if !c.hasCol(f.RT, f.RC) {
+			if !(f.RT == s.T && contains(names, f.RC)) && !c.hasCol(f.RT, f.RC) {
 				return "foreign key of " + s.T + "." + f.Col + " references " + f.RT + "." + f.RC + " which is not defined yet"
 			}
 			fcols = append(fcols, f.Col)
